@@ -34,6 +34,7 @@ MODELS = {
     "std::option::Option::<T>::map_or_else": "option_map_or_else",
     "std::result::Result::<T, E>::unwrap_or": "result_unwrap_or",
     "std::result::Result::<T, E>::is_ok_and": "result_is_ok_and",
+    "std::mem::replace": "mem_replace",
     "core::bool::<impl bool>::then_some": "bool_then_some",
     "core::bool::<impl bool>::then": "bool_then",
     "std::result::Result::<T, E>::map": "result_map",
